@@ -149,6 +149,18 @@ def deprecation_vectors(pid, tier, rng, tmp):
     if len(vecs) > cap:
         rng.shuffle(vecs)
         vecs = vecs[:cap]
+    # the clock the plugins install themselves (Prepare), re-installed at some reads: the deadline does not move
+    for j in range(400 if thorough else 60):
+        valid = rng.choice([1, 2, 5, 60, 3600])
+        pref = rng.randrange(1, valid + 1)
+        rl = rng.choice([1, 3, 60, 7200])
+        reads, t = [], 0
+        for _ in range(rng.randrange(2, 8)):
+            t += rng.choice([0, 1, 1, 2, valid // 2 + 1, valid])
+            reads.append(t)
+        vecs.append({"kind": "c16", "id": "c16-prep-%05d" % j,
+                     "in": {"epoch": 0, "valid": valid, "pref": pref, "rl": rl, "deprecated": j % 5 != 0, "reads": reads, "unit": "s", "tick": 0,
+                            "prepare": True, "reprepare": sorted(rng.sample(range(len(reads)), rng.randrange(0, len(reads))))}})
     for j in range(5000 if thorough else 500):
         valid = rng.randrange(1, 100000)
         pref = rng.randrange(1, valid + 1)
@@ -335,6 +347,10 @@ def c05(pid, tier, replay):
             upper = (3 * mx // 4) // 1000 * 1000
             mn = rng.randrange(3000, upper + 1) if rng.random() < 0.8 else (mx if mx < 9000 else (33 * mx // 100) // 1000 * 1000)
             vecs.append({"kind": "c05", "id": "c05-rand-%05d" % j, "in": {"i": rng.randrange(0, 6), "min": mn, "max": mx}})
+        # (a') loop level with a consumer that is slow to take some requests (the wait is chosen after the hand-over)
+        for j, (mn, mx) in enumerate([(4000, 4000), (3000, 4000), (6000, 8000), (17000, 23000), (200000, 600000)]):
+            for stalls in ({}, {"1": 2 * mx + 500}, {"2": mx + 1}, {"1": mn // 2, "3": 5 * mx}, {"0": 1000, "4": 3 * mx}):
+                vecs.append({"kind": "c05loop", "id": "c05loop-%d-%d" % (j, len(vecs)), "in": {"min": mn, "max": mx, "n": 7, "stalls": stalls}})
         # (b) loop level: quiet runs of the real advertiser; the gaps between multicast RAs are the chosen waits
         scen = []
         pairs = [(6000, 8000), (6000, 8001), (7000, 9400), (16000, 23000), (17000, 23000), (6500, 9500), (200000, 600000),
@@ -438,6 +454,10 @@ C12_ASPECTS = {
     "retrans": [{"retrans": 0}, {"retrans": 1000}, {"retrans": 2000}],
     "life": [{"life": 1800}, {"life": 0}, {"life": 600}],
     "rpref": [{"rpref": "medium"}, {"rpref": "high"}],
+    # the two flags together (an implementation may wrongly treat one as implied by the other)
+    "mo": [{"m": a, "o": b} for a in (False, True) for b in (False, True)],
+    "hl-life": [{"hl": h, "life": l} for h in (64, 0) for l in (1800, 0)],
+    "timers": [{"reach": a, "retrans": b} for a in (0, 1000) for b in (0, 2000)],
 }
 _P = lambda pfx, valid=86400, pref=14400: {"k": "prefix", "pfx": pfx, "valid": valid, "pref": pref, "onlink": True, "auto": True}
 _R = lambda pfx, pref="medium", life=86400: {"k": "route", "pfx": pfx, "pref": pref, "life": life}
